@@ -1001,12 +1001,55 @@ def _has_uf(t):
     return False
 
 
+def _with_margin(c, eps):
+    """strengthen the inequalities of a path-condition conjunct by a margin (validation points away from branch edges)"""
+    k = c.decl().kind() if z3.is_app(c) else None
+    if k == z3.Z3_OP_AND:
+        return z3.And(*[_with_margin(x, eps) for x in c.children()])
+    if k == z3.Z3_OP_OR:
+        return z3.Or(*[_with_margin(x, eps) for x in c.children()])
+    neg = False
+    a = c
+    if k == z3.Z3_OP_NOT:
+        a = c.arg(0)
+        neg = True
+        k = a.decl().kind() if z3.is_app(a) else None
+    if k in (z3.Z3_OP_LE, z3.Z3_OP_LT, z3.Z3_OP_GE, z3.Z3_OP_GT) and a.num_args() == 2 and z3.is_real(a.arg(0)):
+        x, y = a.arg(0), a.arg(1)
+        less = k in (z3.Z3_OP_LE, z3.Z3_OP_LT)  # x <(=) y
+        if neg:
+            less = not less
+        return (y - x >= eps) if less else (x - y >= eps)
+    return c
+
+
+def _robust_model(p: PathCtx, eps=1e-4, timeout_ms=4000):
+    """a model of the path in which every branch inequality holds with a margin: floats then take the same branches.
+    None if there is none (paths that exist only on a tolerance edge) or the solver does not find one quickly"""
+    try:
+        s = z3.Solver()
+        s.set("timeout", timeout_ms)
+        s.add(*p.assumptions)
+        e = z3.RealVal(Fraction(eps).limit_denominator(10**9))
+        for c in p.pc:
+            s.add(_with_margin(c, e))
+        if _timed_check(s, timeout_ms) == "sat":
+            return s.model()
+    except z3.Z3Exception:
+        pass
+    return None
+
+
 def _validation_point(p: PathCtx, env: SymEnv):
     """a concrete input on this path plus the values the symbolic terms take there"""
-    try:
-        m = p._ensure_model()
-    except PathAbort:
-        return None
+    robust = True
+    m = _robust_model(p)
+    if m is None:
+        robust = False
+        try:
+            m = p._ensure_model()
+        except PathAbort:
+            return None
     values = {n: _model_value(m, v) for n, v in p.vars.items()}
     obs = {}
     for name, value in env.observed:
@@ -1037,7 +1080,7 @@ def _validation_point(p: PathCtx, env: SymEnv):
                 else:
                     out.append("obj:" + str(y))
         obs[name] = out
-    return {"values": values, "observed": obs}
+    return {"values": values, "observed": obs, "robust": robust}
 
 
 def concrete_observables(scenario, cfg, values: dict):
